@@ -112,6 +112,9 @@ def run(ctx):
         "oligo-batch": ("single", lambda o: [cli, "comp", "oligo", "-i", ins[2], "-o", o, "-k", "3", "-c", "-t", "3"], None),
         "cgr": ("single", lambda o: [cli, "comp", "cgr", "-i", cleanfa, "-o", o, "-t", "2"], None),
         "min-s2m": ("single", lambda o: [cli, "min", "-i", ins[1], "-o", o, "-m", "7", "-w", "12", "-p", "s2m", "-t", "4"], sorted_lines),
+        # the same input and settings but another delimiter: a result of exactly the same size, different bytes
+        "oligo-mmap-small-csv": ("single", lambda o: [cli, "comp", "oligo", "-i", ins[0], "-o", o, "-k", "3", "-t", "2", "-p", "csv"], None),
+        "oligo-mmap-small-tsv": ("single", lambda o: [cli, "comp", "oligo", "-i", ins[0], "-o", o, "-k", "3", "-t", "3", "-p", "tsv"], None),
         "min-m2s": ("single", lambda o: [cli, "min", "-i", ins[2], "-o", o, "-m", "8", "-w", "0", "-p", "m2s", "-t", "3"], norm_m2s),
     }
     D = {
@@ -136,7 +139,9 @@ def run(ctx):
     rng.shuffle(hd)
     quota = 150 if ctx.thorough() else 22
     # same command twice is always included
-    chosen = [[x, x] for x in sorted(S)] + hs[:quota] + [[x, x] for x in sorted(D)] + hd[:quota]
+    same_size = [["oligo-mmap-small", "oligo-mmap-small-csv"], ["oligo-mmap-small-csv", "oligo-mmap-small-tsv", "oligo-mmap-small"],
+                 ["oligo-batch", "oligo-mmap-small-tsv", "oligo-mmap-small-csv"]]
+    chosen = [[x, x] for x in sorted(S)] + same_size + hs[:quota] + [[x, x] for x in sorted(D)] + hd[:quota]
     events = []
 
     def execute(label, loc, trace, loc_arg=None):
